@@ -284,6 +284,20 @@ def call_builtin(eng, fn, args, kwargs):
                     return (GuardedList(out),)
                 return ([i for _, i in out],)
             return NOT_HANDLED
+    pat = getattr(fn, '__self__', None)
+    if isinstance(pat, _re.Pattern) and (any(isinstance(a, SStr) for a in args) or eng.always_interpret):
+        # methods of a compiled pattern: same model as the module-level functions, flags taken from the pattern
+        flags = pat.flags & ~_re.UNICODE
+        name = fn.__name__
+        if name in ('match', 'fullmatch'):
+            return sstr.re_match(eng, pat.pattern, args[0], flags, full=name == 'fullmatch')
+        if name == 'search':
+            return sstr.re_search(eng, pat.pattern, args[0], flags)
+        if name == 'findall':
+            return sstr.re_findall(eng, pat.pattern, args[0], flags)
+        if name == 'sub':
+            return sstr.re_sub(eng, pat.pattern, args[0], args[1], kwargs.get('count', args[2] if len(args) > 2 else 0), flags)
+        raise Unsupported('compiled pattern method ' + name)
     import bisect as _bisect
     if fn in (_bisect.bisect_right, _bisect.bisect, _bisect.bisect_left) and len(args) == 2 and not kwargs and \
             isinstance(args[1], (SInt,)) and not isinstance(a0, Sym) and all(isinstance(v, int) for v in a0):
